@@ -188,6 +188,10 @@ func HarnessC19Errors() {
 		verifCSV(in, append([][]string{header}, recs...), -1)
 		verifMakeFile(out, 1+verifChoice("existing", 3))
 	}
+	if kind != 2 && verifBool("output-exists") {
+		// a malformed input AND an existing output: the output must still be left alone
+		verifMakeFile(out, 1+verifChoice("existing", 3))
+	}
 	before := verifFileVersion(out)
 	existed := verifFileKind(out) != 0
 	err := createCmd(&globalConfig{}, &createConfig{outputFile: out, inputFile: in, big: big})
